@@ -38,7 +38,7 @@ ASSUMPTIONS = [
 
 def consts(K, NCalls, tagcallers=(), faults=(), maxfaults=1, ntags=None, cachecap=16, kinds=ALL_KINDS, fix=None):
     fx = {"FixHandoff": True, "FixLeak": True, "FixOversize": True, "FixTagNil": True, "FixFanNext": True,
-          "WaitSender": True}
+          "WaitSender": True, "CloseOnFail": True}
     if fix:
         fx.update(fix)
     c = {"K": K, "NCalls": NCalls, "NTags": ntags if ntags is not None else K * NCalls + 1 + len(tagcallers),
@@ -117,8 +117,12 @@ def validate_trace(ctx, name, c, trace_path, stats):
         ctx.inconclusive.append("%s: trace validation did not complete (%s, consumed %d of %d lines)" % (
             name, r.violated or r.error, consumed, nlines))
     if rejects:
-        ctx.inconclusive.append("%s: %d case(s) drifted from Clnt9P (implementation state differs from the "
-                                "specification), first: %s" % (name, len(rejects), rejects[0][:200]))
+        # drift between code and specification is a note in the evidence, never a verdict by itself:
+        # every case is still run to quiescence and judged by the external oracle
+        note = "%s: %d case(s) drifted from Clnt9P (implementation state differs from the specification), first: %s" % (
+            name, len(rejects), rejects[0][:200])
+        ctx.log("note: " + note)
+        stats["drift_notes"].append(note)
     stats["trace_lines"] += consumed
     stats["rejects"] += len(rejects)
     return consumed, rejects
@@ -132,8 +136,10 @@ def replay(ctx, name, c, behaviours_path, stats, dotu=True, trace=True, timeout=
     rep = engine(ctx, "TestReplay", env=env, timeout=timeout, name=name + ":replay", what="replay of Clnt9P behaviours")
     st = rep.get("stats", {})
     if st.get("drift_cases"):
-        ctx.inconclusive.append("%s: %d behaviour(s) could not be replayed step by step (drift), e.g. %s" % (
-            name, st["drift_cases"], json.dumps([s for s in rep.get("samples", []) if "drift" in s][:1])[:300]))
+        note = "%s: %d behaviour(s) could not be replayed step by step (drift; each was run on to quiescence and judged), e.g. %s" % (
+            name, st["drift_cases"], json.dumps([s for s in rep.get("samples", []) if "drift" in s][:1])[:300])
+        ctx.log("note: " + note)
+        stats["drift_notes"].append(note)
     stats["replayed"] += rep.get("cases", 0)
     stats["steps"] += st.get("steps", 0)
     for s in rep.get("samples", [])[:1]:
@@ -197,7 +203,8 @@ def random_bind(ctx, name, c, stats, n, dotu=True):
 
 def new_stats():
     return {"states": 0, "transitions": 0, "replayed": 0, "steps": 0, "trace_lines": 0, "rejects": 0,
-            "tour_edges_covered": 0, "tour_edges_total": 0, "random_schedules": 0, "free_cases": 0, "samples": []}
+            "tour_edges_covered": 0, "tour_edges_total": 0, "random_schedules": 0, "free_cases": 0, "samples": [],
+            "drift_notes": []}
 
 
 def free_engine(ctx, test, stats, env=None, timeout=900, name=None, allow_crash=False):
@@ -221,7 +228,7 @@ def finish(ctx, stats, rule, extra=None):
         "distinct_nontrivial": stats["tour_edges_covered"] + stats["random_schedules"] + stats["free_cases"],
         "rule": rule,
         "controller_steps_executed": stats["steps"], "trace_lines_accepted_by_tlc": stats["trace_lines"] - stats["rejects"],
-        "trace_cases_rejected": stats["rejects"],
+        "trace_cases_rejected": stats["rejects"], "drift_notes": stats["drift_notes"][:20],
         "tour_transitions_covered": stats["tour_edges_covered"], "tour_transitions_total": stats["tour_edges_total"],
         "random_controlled_schedules": stats["random_schedules"], "free_running_sessions": stats["free_cases"],
     }
